@@ -29,16 +29,91 @@ def _write_blocks(cx, fn, field, value=None):
     return out
 
 
+
+def _release_gate(cx, s):
+    """Every path to the store of Ready.is_persisted_msg: the value stored is `true`, unless the path shows a leader
+    (`state == Leader`) whose hard state carries no new term and no new vote w.r.t. prev_hs (finding F4)."""
+    from ..engine import subst_phis
+    g = cx.pg(s.fn)
+    a = cx.prog.A(s.fn)
+    if "stmt" not in s.data:
+        return False, "not a plain store"
+    v0 = a.expr_rvalue(s.data["stmt"]["rv"], s.at)
+    try:
+        pv = g.site_values(s.at, lambda env: dict(env or {}), 20000)
+    except OverflowError:
+        return False, "paths cannot be enumerated"
+    if not pv:
+        return False, "no path"
+
+    def hs_field(e, name):
+        return e[0] == "field" and e[2] == "HardState." + name
+
+    def cmp_of(l, name):
+        # literal comparing prev_hs.<name> with another hard state's <name>: returns True (equal) / False (differs) / None
+        if l[0] == "is" and l[1][0] == "bin" and l[1][1] == "Eq" and hs_field(l[1][2], name) and hs_field(l[1][3], name):
+            if any(any(y[0] == "field" and y[2] == "RawNode.prev_hs" for y in walk(x)) for x in l[1][2:4]):
+                return l[2]
+        return None
+
+    def whole_equal(l):
+        # hs == prev_hs as a whole (the outer `if hs != self.prev_hs` not taken)
+        if l[0] != "is":
+            return False
+        e = l[1]
+        args = e[2:4] if e[0] == "bin" and e[1] == "Eq" else (e[2] if e[0] == "call" and (e[1].endswith("::eq") or e[1].endswith("::ne")) else ())
+        if len(args) != 2 or not any(any(y[0] == "field" and y[2] == "RawNode.prev_hs" for y in walk(x)) for x in args):
+            return False
+        if any(hs_field(x, "term") or hs_field(x, "vote") or hs_field(x, "commit") for x in args):
+            return False
+        eq = (e[0] == "bin") or e[1].endswith("::eq")
+        return l[2] is eq
+
+    def leader(l):
+        if l[0] in ("in", "notin") and is_f(l[1], STATE):
+            if l[0] == "in":
+                return True if l[2] == frozenset(["Leader"]) else (False if "Leader" not in l[2] else None)
+            return False if "Leader" in l[2] else None
+        return None
+
+    def hs_none(l):
+        return l[0] == "in" and l[2] == frozenset(["None"]) and any(y[0] == "field" and y[2] == "Ready.hs" for y in walk(l[1]))
+    n = 0
+    for lits, env in pv:
+        v = subst_phis(v0, env)
+        n += 1
+        if v == ("bool", True):
+            continue
+        unchanged = any(hs_none(l) or whole_equal(l) for l in lits) or (any(cmp_of(l, "term") is True for l in lits) and any(cmp_of(l, "vote") is True for l in lits))
+        is_leader = any(leader(l) is True for l in lits)
+        if v == ("bool", False):
+            if is_leader and unchanged:
+                continue
+            return False, "`false` stored on a path without evidence of a leader with unchanged term and vote"
+        lv = norm_lit(cx.facts, v, True)
+        if leader(lv) is False:
+            # the value is `state != Leader`: nothing else may make the messages wait on this path
+            if unchanged:
+                continue
+            return False, "`state != Leader` stored on a path on which the term or the vote may have changed"
+        ct, cv = cmp_of(lv, "term"), cmp_of(lv, "vote")
+        if ct is False and is_leader and any(cmp_of(l, "vote") is True for l in lits):
+            continue
+        if cv is False and is_leader and any(cmp_of(l, "term") is True for l in lits):
+            continue
+        return False, "unrecognised value %s" % show(v)[:80]
+    return True, "%d paths" % n
+
+
 @obligation("READY.persisted_partition", ["C02", "C04", "C06"], floor=5, kind="value shape + sibling agreement",
             why="a follower's vote grant or append ack must not be sendable before its hard state / entries are persisted")
 def persisted_partition(cx):
     ws = [s for s in cx.prog.writes.get(FLAG, []) if s.kind == "write"]
-    cx.check(len(ws) == 1, "single-writer", "Ready.is_persisted_msg is written exactly once (found %d)" % len(ws))
+    cx.check(len(ws) >= 1 and len({s.fn.key for s in ws}) == 1, "single-writer", "Ready.is_persisted_msg is written in one function, the one that builds the Ready (found %d sites)" % len(ws))
     for s in ws:
-        v = write_value(cx, s)
-        b = match(("bin", "Ne", V("a"), V("b")), v) or match(("un", "Not", ("bin", "Eq", V("a"), V("b"))), v)
-        ok = bool(b) and {b["a"], b["b"]} >= {("enum", "raft::raft::StateRole", "Leader")} and any(is_f(x, STATE) for x in (b["a"], b["b"]))
-        cx.check(ok, cx.site_key(s, "write:" + FLAG), "is_persisted_msg := (raft.state != Leader) (found %s)" % show(v), s, value=show(v))
+        ok, why = _release_gate(cx, s)
+        cx.check(ok, cx.site_key(s, "write:" + FLAG), "is_persisted_msg := (raft.state != Leader) || the Ready carries a new term or vote: messages are immediate only for a "
+                 "leader whose term and vote are already durable (%s)" % why, s, value=show(write_value(cx, s))[:160])
     spec = {"Ready::messages": False, "Ready::take_messages": False, "Ready::persisted_messages": True, "Ready::take_persisted_messages": True}
     for name, when in spec.items():
         f = cx.fn(name)
